@@ -80,3 +80,24 @@ Definition pem_read (name inp : list N) (maxlen : N) : res (list N * list N) :=
       if negb (list_eqb (chomp (cstr raw)) (begin_line name)) then Err
       else pem_body (S (length rest)) (end_line name) rest [] [] maxlen
   end.
+
+(* sm2_public_key_info_from_pem / sm2_private_key_info_from_pem: a 512-byte local buffer, the DER
+   decoder, nothing may follow the object.  Result = the whole SM2_KEY. *)
+Definition pem_name_public : list N := [80; 85; 66; 76; 73; 67; 32; 75; 69; 89].                  (* "PUBLIC KEY" *)
+Definition pem_name_private : list N := [80; 82; 73; 86; 65; 84; 69; 32; 75; 69; 89].             (* "PRIVATE KEY" *)
+Definition sm2_pubkeyinfo_from_pem (pt_ok : list N -> bool) (text : list N) : res sm2_key :=
+  match pem_read pem_name_public text 512 with
+  | Ok (d, _) => match sm2_pubkeyinfo_from_der pt_ok d with
+                 | Ok (k, r) => if is_nil r then Ok k else Err
+                 | Fault => Fault | _ => Err end
+  | Fault => Fault
+  | _ => Err
+  end.
+Definition sm2_privkeyinfo_from_pem (pub_of : list N -> list N) (pt_ok : list N -> bool) (text : list N) : res sm2_key :=
+  match pem_read pem_name_private text 512 with
+  | Ok (d, _) => match sm2_p8_from_der pub_of pt_ok d with
+                 | Ok (dd, pub, _, r) => if is_nil r then Ok {| k_priv := dd; k_pub := pub |} else Err
+                 | Fault => Fault | _ => Err end
+  | Fault => Fault
+  | _ => Err
+  end.
